@@ -20,6 +20,7 @@ def run(cx):
     r1_r2_r4(cx, send)
     cc.check_recv_protocol(cx, "C07.R3", "varlink")
     cc.check_slot_writers(cx, "C07.R3", "varlink")
+    cc.check_recv_framing(cx, "C07.R5", "varlink")
     r5(cx)
     r6(cx)
 
